@@ -52,6 +52,20 @@ def build(rng, tier):
                 cases.append(engcheck.Case(pid, inst2, engcheck.std_history(inst2, pid, dup), {"inp": dup, "kind": "dup-input", "class": "F15"}))
                 inst3 = f"{pid}_{j}r"
                 cases.append(engcheck.Case(pid, inst3, engcheck.std_history(inst3, pid, inp, [f"eng run {inst3}", f"eng dump {inst3}"]), {"inp": inp, "kind": "rerun", "was": "F2"}))
+    # the second entry point: the same aggregation programs compiled with #![generate_run_timeout], interrupted at the k-th clock reading and RESUMED (run() = run_timeout(MAX)),
+    # and run to completion twice: every call rebuilds the indices from the rows, so an aggregate sees each row of a finished lower stratum ONCE whatever the entry point and
+    # however often it was called (Lean side: `runtop` / `runp` of the physical-index model on odd inputs)
+    for i, p in enumerate(plist[: 5 if tier == "quick" else 20]):
+        pid = f"at{i}"
+        progs[pid] = p
+        mods.append((pid, eng.rs_module(pid, p, attrs=("generate_run_timeout",))))
+        for j in range(3 if tier == "quick" else 8):
+            inp = gen.nodup_input(rng.fork(f"{pid}i{j}"), p)
+            for k in ((1, 3) if tier == "quick" else (0, 1, 2, 3, 5)):
+                inst = f"{pid}_{j}_{k}"
+                rt, rn = ("runtop", "runp") if j % 2 == 1 else ("runto", "run")
+                ops = [f"eng new {inst} {pid}"] + engcheck.load_ops(inst, inp) + [f"eng {rt} {inst} {k}", f"eng {rn} {inst}", f"eng dump {inst}", f"eng {rt} {inst} 1000000", f"eng dump {inst}"]
+                cases.append(engcheck.Case(pid, inst, ops, {"inp": inp, "kind": "agg-run_timeout-resumed"}))
     # forced shape "aggregate over an EMPTY relation next to a join": the rule has three positive clauses, or two that are not a simple join (so the "some body relation is empty" shortcut is generated)
     # and aggregates / negates a relation that holds NO row at all: count = 0, sum = 0, negation holds - the rule must fire (only POSITIVE clauses may trigger the shortcut)
     ea = {"rels": [{"arity": 1}, {"arity": 1}, {"arity": 2}, {"arity": 2}, {"arity": 1}, {"arity": 2}],
